@@ -331,9 +331,19 @@ func (c *FnCtx) lookup(env *Env, name string) Val {
 				}
 			}
 		}
-		// parameters by source name
+		// parameters by source name; a parameter that is captured or address-taken lives in a cell of the same name:
+		// the source name then denotes the variable's current content (the contract's positional name keeps the entry value)
 		for _, p := range fr.fn.Params {
 			if p.Name() == name {
+				for _, b := range fr.fn.Blocks {
+					for _, ins := range b.Instrs {
+						if a, ok := ins.(*ssa.Alloc); ok && a.Comment == name {
+							if pv, ok := fr.vals[a]; ok && (fr.entry == nil || env.st != fr.entry) {
+								return c.load(env.st, c.ptrLocNoCheck(pv), nil)
+							}
+						}
+					}
+				}
 				return c.envVal(env, p)
 			}
 		}
@@ -910,6 +920,22 @@ func (c *FnCtx) evalCall(env *Env, x *ECall) Val {
 	if fv := fvp; okp && fv.T != nil {
 		if sig, isSig := fv.T.Underlying().(*types.Signature); isSig {
 			cb := c.eng.callbackSpecFor(fv.T, fv.From)
+			if (cb == nil || !cb.Pure) && fv.Clo != nil && env.st != nil {
+				// a closure of the verified code itself (e.g. handed to a contracted callee): its own body as a term
+				var ps []Val
+				for i := range x.Args {
+					a := arg(i)
+					if i < sig.Params().Len() {
+						a.T = sig.Params().At(i).Type()
+					}
+					ps = append(ps, a)
+				}
+				res, _ := c.closureTerm(env.fr, env.st, fv.Clo, ps)
+				if len(res) == 1 {
+					return res[0]
+				}
+				return Val{T: sig.Results(), Tuple: res}
+			}
 			if cb == nil || !cb.Pure {
 				panic(specError("call of function value " + x.Fun + " whose type has no 'callback ...: pure' declaration"))
 			}
